@@ -884,7 +884,7 @@ func (c *converter) popEndLabel() string {
 }
 
 func (c *converter) nextEndLabel() string {
-	c.endLabels = append(c.endLabels, fmt.Sprintf(":_e%d", len(c.endLabels)))
+	c.endLabels = append(c.endLabels, fmt.Sprintf(":_e%d", c.forCounter-1)) // Use the loop's own number to get a unique label.
 	return c.mustCurrentEndLabel()
 }
 
